@@ -20,6 +20,9 @@ package vm
 //@ option assume-implicit nopanic cannot convert value to array
 //@ option assume-implicit nopanic can't pop instruction pointer
 //@ option assume-implicit nopanic context not found
+// The instruction pointer stays inside the code segment only if every jump offset emitted by the
+// compiler lands inside it - a property of whole programs; the fetch of the next instruction is not checked.
+//@ option assume-implicit index (*cs)[ip]
 //
 // ---- record view of instruction words (justified at bit level in types/bytecode) -----------------
 //@ abstract bytecode.Type
@@ -96,8 +99,9 @@ package vm
 // Operand fetch: every operand kind a well-formed instruction can carry is served; the data-segment
 // operand is the constant itself.
 //@ func (*Type).fetch [C05,C01]
-//@   checks panic [C05]
+//@   checks panic index [C05]
 //@   requires[kind] src == bytecode.AddrStck || src == bytecode.AddrDS || src == bytecode.AddrCls || src == bytecode.AddrLcl || src == bytecode.AddrGbl
+//@   requires[ds_index] (src == bytecode.AddrDS || src == bytecode.AddrGbl) ==> ds != nil && 0 <= addr && addr < len(*ds)
 //@   modifies *m
 //@   ensures[constant;C01,C10] src == bytecode.AddrDS ==> result == (*ds)[addr]
 //@   ensures[only_stack_pops;C01,C09] src != bytecode.AddrStck ==> field[int](m, "sp") == old(field[int](m, "sp"))
@@ -130,7 +134,7 @@ package vm
 //
 // The run loop.
 //@ func (*Type).Run [C05,C10,C04,C03,C18,C02,C09,C17,C19]
-//@   checks panic [C05]
+//@   checks panic index [C05]
 //@   requires[code_wf;C05] vm != nil && vm.main != nil && codeWF(vm.CR.CS, vm.CR.DS)
 //@   modifies *
 //@   loop 0 invariant[code] cs == vm.CR.CS && ds == vm.CR.DS && codeWF(cs, ds) && vm.stdin == old(vm.stdin)
